@@ -80,3 +80,7 @@ Definition py_net_addrs (n : net) : list (Z * Z) :=
   let last := net_last (width (nver n)) (nval n) (nplen n) in
   map (fun i => (nver n, first + Z.of_nat i)) (seq 0 (Z.to_nat (last - first + 1))).
 Definition py_flat_addrs (l : list net) : list (Z * Z) := flat_map py_net_addrs l.
+
+(* ---- IPAddress.format (unit pysrc_ipg_gen.v) ---- *)
+(* the `dialect` argument: None | a dialect class with a word_fmt attribute, as the pair (word_fmt, compact) | any other object *)
+Inductive darg6 := D6None | D6Class (c : string * bool) | D6Other.
